@@ -528,6 +528,20 @@ static void build_alphabet(bool reduced)
 			by_put(&h->b, "oops", 4);
 			h->cls = CL_ERROR_PDU;
 		}
+	/* (3b) well-formed Error Reports with every error code (each has its own branch in the client) */
+	{
+		static const int codes[] = {0, 1, 2, 3, 4, 5, 6, 7, 8, 9, 255};
+
+		for (unsigned int k = 0; k < sizeof(codes) / sizeof(codes[0]); k++) {
+			struct hpdu *h = alpha_new("error-report code=%d (well-formed, 8 enc + 5 text bytes)", codes[k]);
+			struct bytes enc = {0};
+
+			pdu_hdr(&enc, 1, PT_RESET_QUERY, 0, 8);
+			pdu_error(&h->b, SOCKVER, codes[k], enc.p, enc.len, "hello", 5);
+			by_free(&enc);
+			h->cls = CL_ERROR_PDU;
+		}
+	}
 	/* (4) router keys with flags */
 	for (unsigned int f = 0; f < 4; f++) {
 		struct hpdu *h = alpha_new("router-key flags=%d", flagsv[f]);
@@ -741,8 +755,10 @@ static int hook_send(const void *buf, size_t len, time_t timeout)
 	}
 #endif
 	if (SEND_MODE) {
-		/* partial writes: 0 = everything, 1 = one byte, 2 = half, 3 = transport error */
-		int c = ex_choose(len > 1 ? 4 : 2, 1);
+		/* partial writes: 0 = everything, then (len > 1) one byte, half; then the transport faults of a send call */
+		static const int sfaults[3] = {TR_ERROR, TR_WOULDBLOCK, TR_CLOSED};
+		int nshort = len > 1 ? 2 : 0;
+		int c = ex_choose(1 + nshort + 3, 1);
 
 		if (c < 0)
 			env_end_run(PARK_HORIZON);
@@ -750,13 +766,13 @@ static int hook_send(const void *buf, size_t len, time_t timeout)
 			return (int)len;
 		ANY_DEV = true;
 		/* a partial write is a segmentation of the output: everything that holds for the undisturbed run
-		 * must still hold (same bytes on the wire); only a transport error changes the outcome */
-		if (len > 1 && c == 1)
+		 * must still hold (same bytes on the wire); only a transport fault changes the outcome */
+		if (nshort && c == 1)
 			return 1;
-		if (len > 1 && c == 2)
+		if (nshort && c == 2)
 			return (int)(len / 2);
 		SEG_ONLY = false;
-		return TR_ERROR;
+		return sfaults[c - 1 - nshort];
 	}
 	return (int)len;
 }
